@@ -154,6 +154,13 @@ Definition check_run {R} (summ : R -> list N) (s : list (op * reply) * arch * ou
     if N.eqb mode 1 then filter is_mut_step t
     else if N.eqb mode 2 then filter (fun x => negb (is_group_step x)) t
     else t in
+  if N.eqb mode 3 then
+    (* the same operations with the same replies, in any order (restore reads the index lazily,
+       interleaved with block reads; the model reads the listing first) *)
+    if set_eqb step_eqb (r_trace s) impl_tr
+    then (if list_eqb N.eqb (out_code summ (r_out s)) impl_out then 0 else 1)
+    else 999
+  else
   match trace_diff (sel (r_trace s)) (sel impl_tr) 0 with
   | Some i => 1000 + i
   | None => if list_eqb N.eqb (out_code summ (r_out s)) impl_out then 0 else 1
